@@ -24,7 +24,7 @@ COMPONENTS = {"real": ["pyjelly serializers and parsers of both integrations inc
               "stub": ["reader for the option-off clause: simkit.refdec"]}
 ASSUMPTIONS = ["rdflib: bindings use labels/IRIs that do not collide with rdflib's default bindings and are compared "
                "as rdflib holds them on the source graph"]
-PROBES = ["default_namespace_relabelled", "bare_target_reads", "generator_with_option_on", "multi_group_declarations", "per_group_bindings", "label_rebound_between_groups", "generic_runs", "rdflib_runs", "evictions_with_ns", "empty_prefix_label", "cross_integration_reads",
+PROBES = ["default_namespace_relabelled", "bare_target_reads", "generator_with_option_on", "multi_group_declarations", "per_group_bindings", "label_rebound_between_groups", "binding_only_sinks", "generic_runs", "rdflib_runs", "evictions_with_ns", "empty_prefix_label", "cross_integration_reads",
           "physical_GRAPHS", "physical_QUADS"]
 SHRINK_LISTS = ["ops"]
 
@@ -80,6 +80,8 @@ def generate(rng, run, tier):
             if rng.random() < 0.5:
                 per[-1] = [list(b) for b in per[0]]
             cfg["ns_groups"] = per
+    if integration == "generic" and entry == "frames_sink" and rng.random() < 0.06:
+        stmts = []          # a sink that holds bindings and no statements (yet): the bindings are its content
     ops = [["ns", p, i] for p, i in nss] + [["stmt", *T.to_json(st)] for st in stmts]
     return {"cfg": cfg, "ops": ops}
 
@@ -183,6 +185,8 @@ def execute(plan, sim):
         sim.count("default_namespace_relabelled")
     if any(p == "" for p, _ in nss):
         sim.count("empty_prefix_label")
+    if nss and not stmts:
+        sim.count("binding_only_sinks")
     key = (repr(sorted(cfg.items())), repr(nss), repr(stmts)) if len(nss) >= 2 and stmts else None
     want = source_bindings(cfg, stmts, nss) if cfg["entry"] != "frames_gen" else []
     if cfg["entry"] == "frames_gen":
